@@ -61,6 +61,10 @@ def cases_for(tier, rng, structure=False):
     TIB = 1 << 40
     for size in ([] if not full else [3 * TIB + 5]):      # (about 60 s: hundreds of extents; the model's sector numbers end near 4 TiB)
         add("huge-%d" % size, isotrees.big_file_tree(size), nocanon=True)
+    # 2^62 bytes in one sparse file (a memory file system allows it): refused at once, not after building 2^30 extent records
+    add("toolarge-tmpfs", [srv.dnode(["d"], 1500000000), srv.fnode(["d", "EXA.BIN"], 2 ** 62, cid="tl_exa", mtime=1500000002, islands=[(0, 4096)])], nocanon=True)
+    cases[-1]["tmpfs"] = True
+    cases[-1]["memLimitMB"] = 3000
     add("beyond-model-5T", [srv.dnode(["d"], 1500000000), srv.fnode(["d", "FIVE.TIB"], 5 * TIB + 123, cid="tl_5t", mtime=1500000002, islands=[(0, 4096)])], nocanon=True)
     add("toolarge", [srv.dnode(["d"], 1500000000), srv.fnode(["d", "small.bin"], 2049, cid="tl_small", mtime=1500000001),
                      srv.fnode(["d", "TOO.BIG"], 8 * TIB + 4096, cid="tl_big", mtime=1500000002, islands=[(0, 4096)])], nocanon=True)
